@@ -29,6 +29,10 @@ Duplicated(ev) ==
 Singular(ev) ==
     Class(Unflat(ev.p, ev.n)) = "MustBeSingular" \/ Duplicated(ev)
 
+(* the elimination certainly meets an exactly zero pivot *)
+ExactlySingular(ev) ==
+    MissingLine(Unflat(ev.p, ev.n)) \/ Duplicated(ev)
+
 MathRefusal(ev, name) ==
     /\ Explain(ev.ok = 0, <<l, name, "ok", "refused (singular)">>)
     /\ Explain(ev.err = "EDOM", <<l, name, "err", "EDOM">>)
@@ -51,9 +55,9 @@ TApplyAB ==
     LET ev == TraceLog[l]
     IN /\ ev.e = "ApplyAB"
        /\ Explain(ev.setup = 1, <<l, "ApplyAB", "setup", 1>>)
-       /\ IF Singular(ev)
+       /\ IF ExactlySingular(ev)
           THEN MathRefusal(ev, "ApplyAB")
-          ELSE ev.qual = 1 =>
+          ELSE (~Singular(ev) /\ ev.qual = 1) =>
                  /\ Explain(ev.ok = 1 /\ ev.cb = 0, <<l, "ApplyAB", "ok", 1>>)
                  /\ Explain(ev.fin = 1, <<l, "ApplyAB", "fin", 1>>)
                  /\ Explain(ev.res = 1, <<l, "ApplyAB", "res", 1>>)
@@ -61,12 +65,12 @@ TApplyAB ==
 TAddAB ==
     LET ev == TraceLog[l]
     IN /\ ev.e = "AddAB"
-       /\ IF Singular(ev)
+       /\ IF ExactlySingular(ev)
           THEN Explain(\/ (ev.addok = 0 /\ ev.adderr = "EDOM" /\ ev.addcb = 1)
                        \/ (ev.addok = 1 /\ ev.solveok = 0 /\
                            ev.solveerr = "EDOM" /\ ev.solvecb = 1),
                        <<l, "AddAB", "ok", "add or solve refused with EDOM">>)
-          ELSE ev.qual = 1 =>
+          ELSE (~Singular(ev) /\ ev.qual = 1) =>
                  /\ Explain(ev.addok = 1 /\ ev.addcb = 0, <<l, "AddAB", "addok", 1>>)
                  /\ Explain(ev.solveok = 1, <<l, "AddAB", "solveok", 1>>)
                  /\ Explain(ev.rec = 1, <<l, "AddAB", "rec", 1>>)
@@ -82,15 +86,19 @@ TSolve ==
           ELSE /\ Explain(ev.ok = 1 /\ ev.cb = 0, <<l, "Solve", "ok", 1>>)
                /\ Explain(ev.rec = 1, <<l, "Solve", "rec", 1>>)
 
-(* row-scaled receivers: where the calibration could be set up, applying   *)
-(* it reproduces the measurement; the set-up itself is demanded only for   *)
-(* the unscaled instrument                                                 *)
+(* row-scaled receivers: applying the calibration reproduces the           *)
+(* measurement.  Demanded for the unscaled instrument always, and under    *)
+(* row scaling when the calibration was exactly determined (elimination    *)
+(* with scaled pivoting); for over-determined (least-squares) set-ups the  *)
+(* minimiser itself depends on the row weights and invariance under row    *)
+(* scaling is not asserted (the loss is counted and reported).             *)
 TApplyM ==
     LET ev == TraceLog[l]
         unscaled == \A i \in 1..Len(ev.sc) : ev.sc[i] = 0
+        asserted == unscaled \/ ev.det = "exact"
     IN /\ ev.e = "ApplyM"
        /\ Explain(unscaled => ev.setup = 1, <<l, "ApplyM", "setup", 1>>)
-       /\ ev.setup = 1 =>
+       /\ (ev.setup = 1 /\ asserted) =>
              /\ Explain(ev.ok = 1 /\ ev.cb = 0, <<l, "ApplyM", "ok", 1>>)
              /\ Explain(ev.fin = 1, <<l, "ApplyM", "fin", 1>>)
              /\ Explain(ev.res = 1, <<l, "ApplyM", "res", 1>>)
